@@ -12,7 +12,6 @@ import (
 // reviewedDroppedErrors: caller -> callee -> reason.
 var reviewedDroppedErrors = map[string]string{
 	"lib/model/account.NewRegistry -> (*lib/model/account.Registry).Get":                 "the five root account names are constants that pass the validator",
-	"(*cmd/commands.checkRunner).writeFile -> (*lib/journal.Builder).Add":                "Add fails only for an unknown directive type; an *Assertion is known (F-directive-types)",
 	"(lib/reports/weights.Query).Execute$1 -> (*lib/reports/weights.Report).Add":         "Report.Add always returns nil",
 	"lib/model.FromStream$1 -> lib/common/cpr.ForEach":                                   "ForEach fails only when the context is cancelled, i.e. when a sibling stage has failed; that stage's error is what wg.Wait() returns next",
 	"package lib/common/table -> (*lib/common/table.TextRenderer).renderCell":            "inside the text renderer: renderCell fails only for an unknown cell type (excluded by F-cells) or when the writer fails, which the WriteString that follows every cell reports",
@@ -93,6 +92,16 @@ func RuleKErrors(c *core.Ctx) {
 			if why, ok := reviewedDroppedErrors[key]; ok {
 				c.Ob(rule, key, call.Pos(), originName(fn), core.Discharged, "reviewed: "+why)
 				return
+			}
+			// Builder.Add fails only in the default case of its type switch: a call
+			// whose argument has one of the switched types statically cannot fail
+			if callee != nil && originName(callee) == "(*lib/journal.Builder).Add" && len(call.Call.Args) == 2 {
+				if mi, ok := call.Call.Args[1].(*ssa.MakeInterface); ok {
+					if _, known := typeSwitchTypes(callee)[typeShort(mi.X.Type())]; known {
+						c.Ob(rule, key, call.Pos(), originName(fn), core.Discharged, "Builder.Add fails only for a directive type outside its type switch; the argument is statically a "+typeShort(mi.X.Type())+", which the switch handles")
+						return
+					}
+				}
 			}
 			if callee != nil {
 				pkgKey := fmt.Sprintf("package %s -> %s", strings.TrimPrefix(core.PkgPathOf(fn), core.Module+"/"), originName(callee))
